@@ -290,6 +290,23 @@ func VH_C18_Text(p []int) {
 		} else {
 			verifAssert(s.Delimiter() == "", "delimiter-nonlist-ignored")
 		}
+		if len(p) > 2 && p[2] == 1 {
+			// a rune sets it as well; "", the NUL rune and nil unset it (documented)
+			s.SetDelimiter(rune(';'))
+			if cfg.typ == list {
+				verifAssert(s.Delimiter() == ";", "delimiter-rune")
+			}
+			switch nondetChoice(3) {
+			case 0:
+				s.SetDelimiter("")
+			case 1:
+				s.SetDelimiter(rune(0))
+			default:
+				s.SetDelimiter(nil)
+			}
+			verifAssert(s.Delimiter() == "", "delimiter-unset")
+			snap.ljc = ""
+		}
 	case 3:
 		s.SetSymbol(txt)
 		if cfg.typ != list {
